@@ -339,7 +339,7 @@ impl FarmGen {
     fn duration(&mut self) -> u64 {
         match self.rng.gen_range(0..10) {
             0 => 86_399,
-            1 => 31_556_927,
+            1 => *[31_556_927u64, 34_000_000, 63_113_852].choose(&mut self.rng).unwrap(),
             2 | 3 => self.rng.gen_range(86_400..=31_556_926),
             _ => *DURATIONS.choose(&mut self.rng).unwrap(),
         }
@@ -506,7 +506,8 @@ impl FarmGen {
             3 => p.max_farm_epoch_buffer = Some(self.rng.gen_range(1..20)),
             4 => p.farm_expiration_time = Some(*[2_629_746u64, 2_629_745, 3_000_000].choose(&mut self.rng).unwrap()),
             5 => p.min_unlocking_duration = Some(*[86_400u64, 100_000, 40_000_000].choose(&mut self.rng).unwrap()),
-            _ => p.max_unlocking_duration = Some(*[31_556_926u64, 20_000_000, 1].choose(&mut self.rng).unwrap()),
+            // nothing bounds the maximum from above (it only has to be >= the minimum)
+            _ => p.max_unlocking_duration = Some(*[31_556_926u64, 20_000_000, 1, 40_000_000, 63_113_852, u64::MAX].choose(&mut self.rng).unwrap()),
         }))
     }
 
